@@ -206,7 +206,8 @@ def run(chk):
     if r['apply_immutable_param_inits'] or r['apply_like_init_param_inits']:
       chk.violation('oracle', 'apply called a parameter initialiser although the parameter was supplied', {'case': c})
     al = r['apply_like_init']
-    if 'err' in al and al['err'] in ('EParamShape', 'EParamNotFound', 'ECollectionNotFound'):
+    input_shaped_after_write = has(prog, {'varset'}) and any(s_[0] == 'param' and s_[3] == 0 for body_, _ in prog['classes'].values() for s_ in body_)
+    if 'err' in al and al['err'] in ('EParamShape', 'EParamNotFound', 'ECollectionNotFound') and not input_shaped_after_write:
       chk.violation('oracle', 'init succeeded, but apply on exactly the variables it returned (same inputs, same mutable collections) raised %s: a parameter init accepted is missing or '
                     'wrongly shaped for apply' % al['err'], {'case': c, 'init': r['init']})
     if 'err' not in al and al['vars'] is not None:
